@@ -111,3 +111,66 @@ class SyncWrapper(object):
             bad.add('post[2]')     # body must run with the slot held
             bad.add('pre[0]')
         return bad
+
+
+@register('circus.util:_synchronized_cb')
+class SynchronizedCb(object):
+    """the real done-callback of util.synchronized, called the way tornado calls it (with the completed future):
+    whatever the outcome of the operation -- a result, an exception, a cancelled future -- the slot is free
+    afterwards and nothing escapes into the loop (an exception escaping a done-callback is only logged by tornado,
+    the slot would stay taken for ever)"""
+
+    def from_model(self, m):
+        return []
+
+    def enumerate(self):
+        for arb in ('none', 'slot-held', 'slot-free', 'restarting'):
+            for fut in ('result', 'result-none', 'exception', 'conflict', 'keyerror', 'cancelled', 'not-a-future'):
+                yield {'arbiter': arb, 'future': fut}
+
+    def run(self, inp):
+        from circus import util
+        from circus.exc import ConflictError
+        from tornado import concurrent
+        arb = None
+        if inp['arbiter'] != 'none':
+            arb = Host()
+            arb._restarting = inp['arbiter'] == 'restarting'
+            arb._exclusive_running_command = None if inp['arbiter'] == 'slot-free' else 'probe'
+        f = inp['future']
+        fut = concurrent.Future()
+        if f == 'result':
+            fut.set_result(42)
+        elif f == 'result-none':
+            fut.set_result(None)
+        elif f == 'exception':
+            fut.set_exception(RuntimeError('hook failed'))
+        elif f == 'conflict':
+            fut.set_exception(ConflictError('inner'))
+        elif f == 'keyerror':
+            fut.set_exception(KeyError('unknown option'))
+        elif f == 'cancelled':
+            fut.cancel()
+        else:
+            fut = None
+        obs = {}
+        try:
+            util._synchronized_cb(arb, fut)
+        except BaseException as e:       # CancelledError is a BaseException
+            obs['raised'] = type(e).__name__
+        if fut is not None and fut.done() and not fut.cancelled():
+            fut.exception()              # retrieve: no "exception was never retrieved" noise at exit
+        obs['slot_after'] = None if arb is None else arb._exclusive_running_command
+        obs['restarting_after'] = None if arb is None else arb._restarting
+        return obs
+
+    def check(self, inp, obs):
+        bad = set()
+        if 'raised' in obs:
+            bad.add('noescape')
+        if inp['arbiter'] != 'none':
+            if obs['slot_after'] is not None:
+                bad.add('post[0]')
+            if obs['restarting_after'] != (inp['arbiter'] == 'restarting'):
+                bad.add('frame')
+        return bad
